@@ -672,6 +672,22 @@ class Winnow:
             return r
         return self.then(self.run(a, s, st), k, st)
 
+    def p_verify_map(self, s, st, a, f):
+        # winnow 0.6.7 VerifyMap: f(output) -> Option<O2>; None is a Backtrack error at the start of the input
+        def k(v, s2, st2):
+            r = []
+            for g, w in self.call(f, [v], st2):
+                if isinstance(w, Panic):
+                    r.append((g, ("panic", w)))
+                    continue
+                for gw, x in alts_of(w):
+                    if x.variant == "Some":
+                        r.append((b_and(g, gw), ok(x.fields[0], s2)))
+                    else:
+                        r.append((b_and(g, gw), err("Backtrack", EMPTY_CTX, s)))
+            return r
+        return self.then(self.run(a, s, st), k, st)
+
     def p_and_then(self, s, st, outer, inner):
         def k(v, s2, st2):
             r = []
@@ -947,6 +963,7 @@ def register(I):
     R["Parser::try_map"] = ctor("try_map")
     R["Parser::and_then"] = ctor("and_then")
     R["Parser::verify"] = ctor("verify")
+    R["Parser::verify_map"] = ctor("verify_map")
     R["Parser::context"] = ctor("context")
 
     def h_parse_next(I, st, args, info):
